@@ -35,6 +35,12 @@ CHECKS = {
  "C01": dict(level="model_checking", design="4/C01",
    text="Exchange.tla with an adversarial responder (AdvInit: every script of up to 2 (thorough 3) metadata/block items over any label of the DAG or a foreign block, followed or not, genuine block attached or not) checked exhaustively by TLC for Sound. Every TLC-enumerated (tree, local store, script) case up to 3 visits is played by a raw scripted peer against the real requestor on verifnet in several delivery variants (message chunking, final status full/failed/none, forged bytes under the claimed CID), plus mutated honest transcripts of random larger trees; TLC (ExchangeOracle.tla C01OK) judges every run: every committed write hashes to its link and is the block of a visit the traversal loaded, store and deliveries stay inside the true link tree in traversal order, delivered node paths are a prefix of the reference node sequence.",
    note=TB + "; wrong bytes under a claimed CID are exercised through the real v2 codec, which recomputes CIDs", technique="TLC exhaustive model with adversary + TLC batch oracle over real executions of all enumerated scripts"),
+ "C04": dict(level="model_checking", design="4/C04",
+   text="Requestor.tla (request manager actor, executor, pause latch, loader online flag, blocking terminal-error hand-over, both collector goroutines, caller context, responder B and third peer C) checked exhaustively by TLC with per-thread weak fairness: liveness Terminates (terminal status or caller cancel ~> both channels closed), safety (client-cancel error, nothing after close). RequestorScripts.tla enumerates every environment script with <= 2 (thorough: sampled 3) environment events plus all block-hook decisions; each script is replayed on a real GraphSync requestor (gates in storage reads and block hooks hold the executor at the script's points; raw responder) and RequestorOracle.tla judges the observables at quiescence against the outcomes the verified design model allows: hang, missing/spurious/duplicate terminal error, missing cancel.",
+   note=TB + "; K=2 blocks all at the responder; environment events only at points where the real executor can be held; 6 ms settle for 'executor waits for responder' points", technique="TLC exhaustive (safety+liveness) + replay of all TLC-enumerated environment scripts on the real code + TLC oracle"),
+ "C09": dict(level="model_checking", design="4/C09",
+   text="Action property ThirdPartyInert and invariant NoHookForThirdParty of Requestor.tla checked exhaustively; every enumerated script containing third-peer messages (any status, with/without data, response hook reacting ok/update/error, at every stable point) is replayed on the real requestor with a raw third peer: its responses must reach no response or block hook, nothing may be sent to it, and the outcome must equal that of the same script without the third peer's messages (baseline run), judged by RequestorOracle.tla.",
+   note=TB + "; update requests to the responder are not compared (same-id requests coalesce in one outgoing message)", technique="TLC exhaustive action property + replay of all TLC-enumerated scripts with baseline comparison"),
 }
 NA_REASON = "not built yet in this round (check under construction; see DESIGN.md section 4 for the plan)"
 def main():
